@@ -179,7 +179,7 @@ class Ctx:
             r.violated = re.search(r"Action property (\S+) is violated", out).group(1)
         elif "Deadlock reached" in out:
             r.violated = "deadlock"
-        if "The postcondition" in out and "violated" in out or "Postcondition" in out and "violated" in out:
+        if re.search(r"Postcondition \S+ .* is false", out):
             r.postcondition_failed = True
         if r.violated:
             i = out.find("Error:")
@@ -205,6 +205,66 @@ class Ctx:
                               "violated": r.violated, "note": note or ""})
         shutil.rmtree(wd, ignore_errors=True)
         return r
+
+    def validate_traces(self, module, traces, cfg=None, timeout=900, max_rejects=20, sig_prefix="trace-rejected",
+                        describe=None, dfs=False, files=None):
+        """Binding T.  traces: list of recorded executions, each a list of event dicts (key "ev").
+        All are concatenated (each preceded by {"ev":"reset","trace":i}) into trace.ndjson and
+        validated by spec/<module>.tla (conventions: spec/TraceLib.tla) in one TLC run, -workers 1.
+        A trace the spec cannot explain, or one that reaches a state violating an invariant of the
+        trace cfg, is a violation exhibited by the real code; it is recorded (sig
+        "<sig_prefix>:<event name at the rejection point>") and the remaining traces are re-validated
+        without it, so one rejection does not hide the rest.  Returns number of accepted traces."""
+        remaining = list(range(len(traces)))
+        accepted = 0
+        rejects = 0
+        while remaining:
+            lines = []
+            start = {}
+            for i in remaining:
+                start[len(lines) + 1] = i
+                lines.append(json.dumps({"ev": "reset", "trace": i}))
+                for e in traces[i]:
+                    lines.append(json.dumps(e, separators=(",", ":")))
+            fl = dict(files or {})
+            fl["trace.ndjson"] = "\n".join(lines) + "\n"
+            r = self.tlc(module, cfg=cfg, workers=1, timeout=timeout, files=fl, expect_violation=True, dfs=dfs,
+                         note="trace validation of %d recorded executions (%d events)" % (len(remaining), len(lines)))
+            if r.ok:
+                accepted += len(remaining)
+                break
+            # locate the rejected line
+            bad_line = None
+            why = None
+            if r.violated and r.violated not in ("deadlock",):
+                ls = re.findall(r"/\\ l = (\d+)", r.cex or "")
+                if ls:
+                    bad_line = int(ls[-1]) - 1     # the event consumed last led to the bad state
+                why = "invariant %s violated by recorded execution" % r.violated
+            else:
+                m = [x for x in r.lines if isinstance(x, str) and x.startswith("HWM ")]
+                if m:
+                    bad_line = int(m[-1].split()[1])
+                why = "recorded event not explained by the specification"
+            if bad_line is None or bad_line < 1 or bad_line > len(lines):
+                raise Infra("trace validation of %s failed but the rejection point could not be located:\n%s" % (module, r.raw[-3000:]))
+            st = max(k for k in start if k <= bad_line)
+            ti = start[st]
+            ev = json.loads(lines[bad_line - 1])
+            rejects += 1
+            ctxlines = [json.loads(x) for x in lines[max(st - 1, bad_line - 6):bad_line]]
+            what = "%s: %s at event #%d (%s) of recorded trace %d" % (module, why, bad_line - st, ev.get("ev"), ti)
+            if describe:
+                what += " " + describe(traces[ti], bad_line - st - 1)
+            self.violation("%s:%s" % (sig_prefix, ev.get("ev")), what,
+                           {"trace": traces[ti], "rejected_event_index": bad_line - st - 1, "context": ctxlines, "invariant": r.violated})
+            # traces before the rejected one were accepted
+            accepted += len([i for i in remaining if i < ti and i in remaining[:remaining.index(ti)]])
+            remaining = remaining[remaining.index(ti) + 1:]
+            if rejects >= max_rejects:
+                break
+        self.traces_validated += accepted
+        return accepted
 
     def tlc_must_hold(self, module, **kw):
         """Model-check; a counterexample in the design model is NOT a verdict: Infra (exit 2)
